@@ -40,7 +40,8 @@ type Step struct {
 	Phase   int    `json:"phase,omitempty"`
 	Landing []int  `json:"landing,omitempty"`
 	Then    []Step `json:"then,omitempty"`
-	Hold    bool   `json:"hold,omitempty"` // do not release explicitly: the held resolver continues on ctx cancellation / gate timeout
+	Resub   bool   `json:"resub,omitempty"` // storm: every unsubscribe is followed at once by a subscribe of the same id to another query
+	Hold    bool   `json:"hold,omitempty"`  // do not release explicitly: the held resolver continues on ctx cancellation / gate timeout
 
 	N       int  `json:"n,omitempty"`       // failwrite: which write fails
 	Wait    bool `json:"wait,omitempty"`    // wait until the server has processed the message
@@ -412,7 +413,7 @@ func (s *Session) storm(st *Step) error {
 		last := 0
 		for i, id := range ids {
 			tag := fmt.Sprintf("s%d_%d", round, i)
-			q := fmt.Sprintf("{ root(tag: %q) { n res } }", tag)
+			q := fmt.Sprintf("{ root(tag: %q) { n tag res } }", tag)
 			last = s.Sock.Send(id, "subscribe", map[string]interface{}{"query": q, "variables": map[string]interface{}{}}, MsgMeta{Tag: tag, Query: q})
 		}
 		if round%2 == 0 {
@@ -428,8 +429,13 @@ func (s *Session) storm(st *Step) error {
 			return s.Sock.Send(fmt.Sprintf("sm%d", round), "mutate", map[string]interface{}{"query": mq, "variables": map[string]interface{}{}}, MsgMeta{Query: mq})
 		}
 		unsubs := func() {
-			for _, id := range ids {
+			for i, id := range ids {
 				last = s.Sock.Send(id, "unsubscribe", nil, MsgMeta{})
+				if st.Resub {
+					tag := fmt.Sprintf("s%d_%dr", round, i)
+					q := fmt.Sprintf("{ root(tag: %q) { s nums tag } }", tag)
+					last = s.Sock.Send(id, "subscribe", map[string]interface{}{"query": q, "variables": map[string]interface{}{}}, MsgMeta{Tag: tag, Query: q})
+				}
 				spin(next(40000))
 			}
 		}
@@ -454,6 +460,12 @@ func (s *Session) storm(st *Step) error {
 		}
 		if !early {
 			last = mutate()
+		}
+		if st.Resub { // end the re-subscriptions before the next round re-uses the ids
+			spin(next(200000))
+			for _, id := range ids {
+				last = s.Sock.Send(id, "unsubscribe", nil, MsgMeta{})
+			}
 		}
 		if o := s.WaitProcessed(last); o != vlib.Reached {
 			return fmt.Errorf("storm: message %d not processed: %v", last, o)
